@@ -5,7 +5,7 @@ open Util
 open Model
 open Lexgen
 
-type piece = T of string | V of string | B of string     (* text, print tag content, block tag content *)
+type piece = T of string | V of string | B of string | C of string    (* text, print tag content, block tag content, comment *)
 
 let catalogue : (string * piece list) array = [|
   "print",     [ T "x"; V " a "; T "y"; V " b|upper "; T "z" ];
@@ -33,6 +33,15 @@ let catalogue : (string * piece list) array = [|
   "tight-print", [ T "total: "; V "7"; T " . "; V "a"; T " , "; V "7 "; T " ; "; V " 7"; T " : "; V "a|upper"; T " ! "; V "'q'"; T " ? "; V "(7)"; T " / "; V "[7][0]" ];
   "tight-block", [ T "s "; B "if a"; T " yes "; B "else"; T " no "; B "endif"; T " e "; B "set z = 7"; T " "; V "z"; T " f" ];
   "tight-for",   [ B "for i in items"; T " < "; V "i"; T " > "; B "endfor"; T " ." ];
+  (* comments next to dashed tags and between a text and a tag: they are nothing, on either side of a dash *)
+  "comment-left",  [ T "<div> "; C " left "; V " a "; T " "; C " right "; T " </div>" ];
+  "comment-between", [ T "x "; V " a "; C " c "; T "\n y "; C "c2"; B " if a "; T " in "; C " c3 "; B " endif "; T " z" ];
+  "comment-only-gap", [ V " a "; C " gap "; V " b "; T " "; C ""; T " "; V " a " ];
+  "comment-in-block", [ B " block b "; C " note "; T " body "; C " note2 "; B " endblock "; T " tail" ];
+  (* bodies that are nothing but whitespace, under filters that make something of the empty text *)
+  "apply-blank",   [ T "["; B " apply length "; T ""; B " endapply "; T "]"; B " apply json_encode "; T " "; B " endapply "; T "." ];
+  "apply-blank-chain", [ T "("; B " apply upper "; T ""; B " endapply "; T ")"; B " apply title "; T ""; B " endapply "; T "/"; B " spaceless "; T " "; B " endspaceless "; T ";" ];
+  "blank-bodies",  [ B " if a "; T ""; B " else "; T ""; B " endif "; T "|"; B " for i in items "; T ""; B " endfor "; T "|"; B " block b "; T ""; B " endblock "; T "." ];
   (* the closing tag repeats the block's name *)
   "block-named", [ T "[ "; B " block b "; T " body "; V " a "; T " "; B " endblock b "; T " ]" ];
   "block-named-ext", [ B " extends 'base' "; B " block b "; T " child "; V " a "; T " "; B " endblock b " ];
@@ -56,12 +65,14 @@ let run ~seed ~tier oc =
           let l = pick r ws_more and t = pick r ws_more in
           if l <> "" || t <> "" then incr nws;
           [ T (l ^ s ^ t) ]
+      | C _ as p -> [ p ]
       | p -> if rint r 4 = 0 then [ p; T (pick r [| " "; "\n"; "\t \n"; " . " |]) ] else [ p ]) pieces in
     let segs = List.map (fun p ->
       let dl = rint r (if dense then 2 else 4) = 0 and dr = rint r (if dense then 2 else 4) = 0 in
-      (match p with T _ -> () | _ -> (if dl then incr ndash); (if dr then incr ndash));
+      (match p with T _ | C _ -> () | _ -> (if dl then incr ndash); (if dr then incr ndash));
       match p with
       | T s -> SText (b s)
+      | C c -> STag (OComment, b c, false)
       | V c -> STag ((if dl then OVarT else OVar), b c, dr)
       | B c -> STag ((if dl then OBlockT else OBlock), b c, dr)) pieces in
     let segs = merge_texts segs in
